@@ -31,8 +31,8 @@ CONSTANTS PatAtoms, PatUnaries, PatBinaries,   \* patterns: atoms, quantified at
           PatDepth,                            \* 0..2
           SubjChars, MaxLen
 
-VARIABLES r, s, nullable, found, adm, ginfo
-vars == <<r, s, nullable, found, adm, ginfo>>
+VARIABLES r, s, nullable, found, adm, ginfo, valid
+vars == <<r, s, nullable, found, adm, ginfo, valid>>
 
 P0 == {Atom(n) : n \in PatAtoms}
 P1 == P0 \cup {Wrap(u, a) : u \in PatUnaries, a \in P0}
@@ -101,6 +101,7 @@ Init == /\ r \in Patterns
         /\ found = nullable
         /\ adm = IF nullable THEN {} ELSE {[parts |-> <<>>, tokens |-> <<>>]}
         /\ ginfo = GInfo(r, <<>>)
+        /\ valid = ValidIn(r)      \* under XsdVersion; an invalid pattern is FORX0002 for all four functions
 
 Feed(c) ==
   /\ Len(s) < MaxLen
@@ -109,7 +110,7 @@ Feed(c) ==
        /\ found' = (sp # {})
        /\ adm' = IF nullable THEN {} ELSE AdmSet(s', sp)
   /\ ginfo' = IF nullable THEN <<>> ELSE GInfo(r, s')
-  /\ UNCHANGED <<r, nullable>>
+  /\ UNCHANGED <<r, nullable, valid>>
 
 Next == \E c \in SubjChars : Feed(c)
 Spec == Init /\ [][Next]_vars
